@@ -12,6 +12,8 @@ here again so that this file depends on no other property's Props file) — a re
 statements of a mutator changes the generated definition and breaks that proof, hence this file.
 -/
 import WzVerif.Lemmas.Http
+import WzVerif.Lemmas.HttpSet
+import WzVerif.Model.HeaderSetCtor
 import WzVerif.Lemmas.Containers
 import WzVerif.Lemmas.PyFns_Headers
 import WzVerif.Gen.PyFns_HeaderSet
@@ -73,23 +75,11 @@ theorem hsToHeader_eq (c : HS.St) : HS.toHeader c = headerSetToHeader c.headers 
   intro s _
   exact hsQuote_eq s
 
-/-- `parse_set_header(to_header())` returns the `_headers` list — for every state, consistent or not -/
+/-- the list `parse_set_header(to_header())` hands to the constructor is the `_headers` list — for
+every state, consistent or not -/
 theorem parseSet_hsToHeader (c : HS.St) : parseSetHeader (HS.toHeader c) = c.headers := by
   rw [hsToHeader_eq]
-  unfold parseSetHeader headerSetToHeader
-  have h := parseList_dump_any c.headers
-  unfold dumpHeaderList at h
-  split
-  · next he =>
-    cases hc : c.headers with
-    | nil => rfl
-    | cons v vs =>
-      exfalso
-      rw [List.isEmpty_iff] at he
-      rw [hc] at h he
-      rw [he] at h
-      simp [parseListHeader, parseHttpList, httpListGo] at h
-  · exact h
+  exact parseSet_list_dump_any c.headers
 
 /-! ### the translated mutators are C08's hand model -/
 
@@ -239,17 +229,47 @@ indexing, `find`, `to_header` and `as_set(preserve_casing=True)` see) and the sa
 def HsEquiv (a b : HS.St) : Prop :=
   a.headers = b.headers ∧ (∀ x, x ∈ a.set ↔ x ∈ b.set) ∧ HS.len a = HS.len b
 
-/-- what `parse_set_header` builds from header text: `HeaderSet(parse_list_header(value))` -/
-def parseSetObj (s : Str) : HS.St := HS.construct (parseSetHeader s)
+/-- the constructor used here is C08's model of the repaired constructor -/
+theorem hsCtor_eq_construct (l : List Str) : hsCtor l = HS.construct l := rfl
 
-theorem construct_equiv_of_inv (c : HS.St) (h : HS.Inv c) : HsEquiv (HS.construct c.headers) c := by
-  have hi := C08L.hs_construct_inv c.headers h.1
-  refine ⟨rfl, ?_, ?_⟩
+theorem inv_empty : HS.Inv ⟨[], []⟩ := by
+  refine ⟨by simp, by simp, ?_⟩
+  intro x; simp
+
+/-- the repaired constructor establishes the invariant for **every** input (F08c is gone) -/
+theorem hsCtor_inv (l : List Str) : HS.Inv (hsCtor l) := C08L.inv_updateLoop _ inv_empty l
+
+theorem insertAll_of_nodup (s l : List Str) (h : ((s ++ l).map Hdr.lower).Nodup) : HSSpec.insertAll s l = s ++ l := by
+  induction l generalizing s with
+  | nil => simp [HSSpec.insertAll]
+  | cons x t ih =>
+    have hx : HSSpec.mem s x = false := by
+      simp only [List.map_append, List.map_cons] at h
+      have := (List.nodup_append.1 h).2.2
+      simp only [HSSpec.mem]
+      cases hc : (s.map Hdr.lower).contains (Hdr.lower x) with
+      | false => rfl
+      | true =>
+        exfalso
+        have hm : Hdr.lower x ∈ s.map Hdr.lower := by simpa using hc
+        exact this _ hm _ List.mem_cons_self rfl
+    simp only [HSSpec.insertAll, HSSpec.insert, hx, Bool.false_eq_true, if_false]
+    rw [ih (s ++ [x]) (by simpa using h)]
+    simp
+
+/-- on a list without case-duplicates the constructor keeps every member -/
+theorem hsCtor_headers_of_nodup (l : List Str) (h : (l.map Hdr.lower).Nodup) : (hsCtor l).headers = l := by
+  unfold hsCtor
+  rw [C08L.updateLoop_spec _ inv_empty l]
+  simpa using insertAll_of_nodup [] l (by simpa using h)
+
+theorem construct_equiv_of_inv (c : HS.St) (h : HS.Inv c) : HsEquiv (hsCtor c.headers) c := by
+  have hi := hsCtor_inv c.headers
+  have hh := hsCtor_headers_of_nodup c.headers h.1
+  refine ⟨hh, ?_, ?_⟩
   · intro x
-    rw [hi.2.2 x, h.2.2 x]
-    rfl
-  · rw [C08L.hs_len_eq _ hi, C08L.hs_len_eq _ h]
-    rfl
+    rw [hi.2.2 x, h.2.2 x, hh]
+  · rw [C08L.hs_len_eq _ hi, C08L.hs_len_eq _ h, hh]
 
 theorem parseSet_toHeader_of_inv (c : HS.St) (h : HS.Inv c) : HsEquiv (parseSetObj (HS.toHeader c)) c := by
   unfold parseSetObj
